@@ -317,35 +317,35 @@ func escapeSeg(s string) string {
 
 func genCase(t *rapid.T) *Case {
 	c := &Case{}
-	c.G.TS = rapid.SampledFrom([]int{rt.TSNone, rt.TSIgnore, rt.TSRedirect, rt.TSRedirect}).Draw(t, "globalTS")
-	n := rapid.IntRange(1, 8).Draw(t, "nroutes")
-	hostW := rapid.SampledFrom([]int{2, 1000, 1000}).Draw(t, "hostweight")
-	multi := rapid.IntRange(0, 2).Draw(t, "multi") == 0
+	c.G.TS = gen.Pick(t, []int{rt.TSNone, rt.TSIgnore, rt.TSRedirect, rt.TSRedirect}, "globalTS")
+	n := gen.IntR(t, 1, 8, "nroutes")
+	hostW := gen.Pick(t, []int{2, 1000, 1000}, "hostweight")
+	multi := gen.IntR(t, 0, 2, "multi") == 0
 	var pool []string
 	for i := 0; i < n; i++ {
 		p := gen.Pattern(t, pool, hostW, false)
 		pool = append(pool, p)
 		m := "GET"
 		if multi {
-			m = rapid.SampledFrom(methods).Draw(t, "method")
+			m = gen.Pick(t, methods, "method")
 		}
-		ts := rapid.SampledFrom([]int{0, 0, 0, rt.TSIgnore, rt.TSRedirect, rt.TSOff}).Draw(t, "routeTS")
+		ts := gen.Pick(t, []int{0, 0, 0, rt.TSIgnore, rt.TSRedirect, rt.TSOff}, "routeTS")
 		c.Routes = append(c.Routes, rt.RouteSpec{Method: m, Pattern: p, TS: ts})
 	}
-	if rapid.IntRange(0, 2).Draw(t, "extra") == 0 {
-		ne := rapid.IntRange(1, 3).Draw(t, "nextra")
+	if gen.IntR(t, 0, 2, "extra") == 0 {
+		ne := gen.IntR(t, 1, 3, "nextra")
 		for i := 0; i < ne; i++ {
 			p := gen.Pattern(t, pool, hostW, false)
 			m := "GET"
 			if multi {
-				m = rapid.SampledFrom(methods).Draw(t, "xmethod")
+				m = gen.Pick(t, methods, "xmethod")
 			}
 			c.Extra = append(c.Extra, rt.RouteSpec{Method: m, Pattern: p})
 		}
 	}
-	nreq := rapid.IntRange(1, 6).Draw(t, "nreq")
+	nreq := gen.IntR(t, 1, 6, "nreq")
 	for i := 0; i < nreq; i++ {
-		src := rapid.SampledFrom(c.Routes).Draw(t, "src")
+		src := gen.Pick(t, c.Routes, "src")
 		if !ref.ValidPattern(src.Pattern, 1<<16, 1<<16) {
 			continue
 		}
@@ -360,23 +360,23 @@ func genCase(t *rapid.T) *Case {
 			continue
 		}
 		segs := strings.Split(path, "/")
-		if rapid.IntRange(0, 2).Draw(t, "reserved") == 0 {
+		if gen.IntR(t, 0, 2, "reserved") == 0 {
 			// replace a wildcard-ish position (any non-empty segment) by a segment with reserved characters
-			k := rapid.IntRange(1, len(segs)-1).Draw(t, "which")
+			k := gen.IntR(t, 1, len(segs)-1, "which")
 			if segs[k] != "" {
-				segs[k] = rapid.SampledFrom(reserved).Draw(t, "rsv")
+				segs[k] = gen.Pick(t, reserved, "rsv")
 			}
 		}
 		for k := range segs {
 			segs[k] = escapeSeg(segs[k])
 		}
-		target := strings.Join(segs, "/") + rapid.SampledFrom(queries).Draw(t, "query")
-		if rapid.IntRange(0, 3).Draw(t, "hostmut") == 0 {
+		target := strings.Join(segs, "/") + gen.Pick(t, queries, "query")
+		if gen.IntR(t, 0, 3, "hostmut") == 0 {
 			host = gen.MutateHost(t, host)
 		}
 		m := src.Method
-		if rapid.IntRange(0, 5).Draw(t, "othermethod") == 0 {
-			m = rapid.SampledFrom(methods).Draw(t, "reqmethod")
+		if gen.IntR(t, 0, 5, "othermethod") == 0 {
+			m = gen.Pick(t, methods, "reqmethod")
 		}
 		c.Reqs = append(c.Reqs, Req{Method: m, Host: host, Target: target})
 	}
